@@ -28,195 +28,13 @@
    Terminal records that are not Executable are printed as <<"CEX", kind, level, clause, input width class, input fits, gate-set class>>: design-level
    counterexamples, which the harness replays on the real compile() (Compat.tla decides there).
    PipelineTrace.tla validates recorded pass / predicate sequences of real runs against this module.                *)
-EXTENDS Naturals, Sequences, FiniteSets, TLC, Json, IOUtils
+EXTENDS PipelineDefs
 
 CONSTANTS UseBuilt,      \* TRUE: programs come from IOEnv.BUILT_FILE (extracted from the real build_workflow)
           KindsUsed,     \* subset of Kinds explored by this run
           LevelsUsed     \* subset of 1..4
 
-\* ------------------------------------------------------------------ program constructors
-P(n)           == [t |-> "pass", name |-> n]
-If(p, a, b)    == [t |-> "if", pred |-> p, then |-> a, else |-> b]
-While(p, a)    == [t |-> "while", pred |-> p, body |-> a]
-ForEach(f, a)  == [t |-> "foreach", filter |-> f, body |-> a]
-None           == <<>>
-
-\* ------------------------------------------------------------------ compile.py, transcribed
-QSearch == P("QSearchSynthesisPass")
-LEAP    == P("LEAPSynthesisPass")
-Scan    == <<P("ScanningGateRemovalPass")>>
-\* build_standard_search_synthesis_workflow
-Synth   == <<If("Width<3", <<QSearch>>, <<LEAP>>)>>
-\* build_partitioning_workflow (error_threshold = None)
-Partition(body) == <<P("QuickPartitioner"), P("ExtendBlockSizePass"), ForEach("less-than-respecting-multi", body), P("UnfoldPass")>>
-\* build_multi_qudit_retarget_workflow
-MQCore == <<P("FillSingleQuditGatesPass"),
-            If("Not(MultiPhysical)",
-               <<If("ManyQuditGates",
-                    <<P("ExtractModelConnectivityPass")>> \o Synth \o <<P("RestoreModelConnectivityPass")>>,
-                    <<P("AutoRebase2QuditGatePass")>>)>>,
-               Scan)>>
-MQRetarget == <<If("Not(Width<2)", <<P("LogPass")>> \o Partition(MQCore), None)>>
-\* build_single_qudit_retarget_workflow
-SQBody == <<If("Not(SinglePhysical)",
-               <<If("HasGeneralSingleQuditGate", <<P("GeneralSQDecomposition")>>,
-                    <<If("ZXGate", <<P("ZXZXZDecomposition")>>, <<QSearch>>)>>)>>,
-               None)>>
-SQRetarget ==
-  <<If("Not(SinglePhysical)",
-       <<P("LogPass"), P("UnfoldPass"), P("GroupSingleQuditGatePass"),
-         If("AllConstantSingleQuditGates", <<P("LogPass")>>, None),
-         If("NoSingleQuditGatesInModel",
-            <<P("LogPass")>> \o Partition(Scan) \o <<If("Not(SinglePhysical)", <<P("LogPass")>>, None)>>,
-            <<ForEach("always", SQBody)>>),
-         P("UnfoldPass")>>,
-       None)>>
-\* build_sabre_mapping_workflow
-Sabre == <<P("LogPass"), P("GreedyPlacementPass"), P("GeneralizedSabreLayoutPass"), P("GeneralizedSabreRoutingPass")>>
-\* build_gate_deletion_optimization_workflow / build_resynthesis_optimization_workflow
-GateDeletion(iter) == LET core == <<P("LogPass")>> \o Partition(Scan) IN IF iter THEN <<While("Change", core)>> ELSE core
-Resynth(iter) == LET core == <<P("LogPass")>> \o Partition(<<If("Not(Width<2)", Synth, None)>>)
-                 IN IF iter THEN <<While("GateCount", core)>> ELSE core
-\* build_seqpam_mapping_optimization_workflow (error_sim_size = None)
-PAMCache == ForEach("always", <<If("Width<4", <<P("EmbedAllPermutationsPass")>>, <<P("EmbedAllPermutationsPass")>>)>>)
-SeqPAM == <<If("Not(Width<2)",
-               <<P("LogPass"), P("ExtractModelConnectivityPass"), P("QuickPartitioner"), PAMCache,
-                 P("LogPass"), P("PAMRoutingPass"), P("NOOPPass"), P("UnfoldPass"), P("RestoreModelConnectivityPass"),
-                 P("LogPass"), P("SubtopologySelectionPass"), P("QuickPartitioner"), PAMCache,
-                 P("LogPass"), P("ApplyPlacement"), P("PAMLayoutPass"), P("PAMRoutingPass"), P("NOOPPass"),
-                 P("ApplyPlacement"), P("UnfoldPass")>>,
-               None)>>
-Opt(level) ==
-  CASE level = 1 -> <<P("SetModelPass")>> \o MQRetarget \o Sabre \o MQRetarget \o SQRetarget
-                    \o <<P("LogErrorPass"), P("ApplyPlacement")>>
-    [] level = 2 -> <<P("SetModelPass")>> \o MQRetarget \o Sabre \o MQRetarget \o SQRetarget \o GateDeletion(FALSE)
-                    \o <<P("LogErrorPass"), P("ApplyPlacement")>>
-    [] level = 3 -> <<P("SetModelPass")>> \o MQRetarget \o Sabre \o MQRetarget \o Resynth(TRUE) \o SQRetarget
-                    \o GateDeletion(TRUE) \o <<P("LogErrorPass"), P("ApplyPlacement")>>
-    [] level = 4 -> <<P("SetModelPass")>> \o SeqPAM \o MQRetarget \o Resynth(TRUE) \o SQRetarget \o GateDeletion(TRUE)
-                    \o <<P("LogErrorPass")>>
-\* _circuit_workflow
-CircuitProg(level) == <<P("UnfoldPass"), P("ExtractMeasurements")>> \o Opt(level) \o <<P("RestoreMeasurements")>>
-\* _synthesis_workflow (n = width of the unitary)
-UnitaryProg(level, n) ==
-  LET synth == IF n = 1 THEN <<QSearch>> ELSE IF level < 4 THEN Synth ELSE <<P("PermutationAwareSynthesisPass")>>
-  IN <<P("SetModelPass"), P("SetTargetPass")>> \o synth \o SQRetarget
-     \o (IF level >= 2 THEN Scan ELSE <<P("NOOPPass")>>)
-\* _stateprep_workflow / _statemap_workflow
-StateProg(level, n) ==
-  LET synth == CASE level \in {1, 2} -> LEAP
-                 [] level = 3 -> IF n > 3 THEN LEAP ELSE QSearch
-                 [] level = 4 -> P("PermutationAwareSynthesisPass")
-  IN <<P("SetModelPass"), P("SetTargetPass"), synth>> \o (IF level >= 2 THEN Scan ELSE <<P("NOOPPass")>>)
-Prog(kind, level, n) ==
-  CASE kind = "circuit" -> CircuitProg(level)
-    [] kind = "unitary" -> UnitaryProg(level, n)
-    [] kind \in {"state", "system"} -> StateProg(level, n)
-
-Kinds == {"circuit", "unitary", "state", "system"}
-BuiltN(kind, n) == IF kind = "circuit" THEN 0 ELSE n
-\* the programs extracted from the real build_workflow(): sequence of [kind, level, n, prog]
-Built == JsonDeserialize(IOEnv.BUILT_FILE)
-BuiltProg(kind, level, n) == (CHOOSE i \in 1..Len(Built) : Built[i].kind = kind /\ Built[i].level = level /\ Built[i].n = BuiltN(kind, n)).prog
 Program(kind, level, n) == IF UseBuilt THEN BuiltProg(kind, level, n) ELSE Prog(kind, level, n)
-
-\* ------------------------------------------------------------------ abstract records
-Meas == {"none", "in", "stored"}
-Records == [w : 1..3, fits : BOOLEAN, wide : BOOLEAN, mq : BOOLEAN, sq : BOOLEAN, coupled : BOOLEAN,
-            folded : BOOLEAN, a2a : BOOLEAN, meas : Meas]
-\* what a record of a real circuit always satisfies
-Consistent(r) ==
-  /\ (r.w = 1 => r.mq /\ ~r.wide /\ r.coupled)
-  /\ (r.wide => r.w >= 3)
-GateSets == [hasSQ : BOOLEAN, general : BOOLEAN, zx : BOOLEAN, allConst : BOOLEAN, swapNative : BOOLEAN]
-GSConsistent(g) == (g.general => g.hasSQ /\ ~g.allConst) /\ (g.zx => g.hasSQ) /\ (~g.hasSQ => g.allConst)
-
-\* ------------------------------------------------------------------ predicates (sets of possible truth values)
-RECURSIVE PredVal(_, _, _)
-PredVal(p, r, g) ==
-  CASE p = "Width<2" -> {r.w < 2}
-    [] p = "Width<3" -> {r.w < 3}
-    [] p = "Width<4" -> IF r.w < 3 THEN {TRUE} ELSE BOOLEAN
-    \* (a single-qudit CircuitGate is a non-native single-qudit gate for this predicate: undetermined while folded)
-    [] p = "SinglePhysical" -> IF r.folded THEN {FALSE, r.sq} ELSE {r.sq}
-    [] p = "NoSingleQuditGatesInModel" -> {~g.hasSQ}
-    [] p = "AllConstantSingleQuditGates" -> {g.allConst}
-    [] p = "HasGeneralSingleQuditGate" -> {g.general}
-    [] p = "ZXGate" -> {g.zx}
-    [] p \in {"Change", "GateCount"} -> BOOLEAN                          \* depend on the history of gate counts
-    [] p = "Not(Width<2)" -> {~(r.w < 2)}
-    [] p = "Not(SinglePhysical)" -> {~x : x \in PredVal("SinglePhysical", r, g)}
-    [] OTHER -> BOOLEAN                                                  \* block-level predicates are not interpreted here
-
-\* ------------------------------------------------------------------ contracts
-RECURSIVE Leaves(_)
-Leaves(prog) == UNION {IF prog[i].t = "pass" THEN {prog[i].name}
-                       ELSE IF prog[i].t = "if" THEN Leaves(prog[i].then) \cup Leaves(prog[i].else)
-                       ELSE Leaves(prog[i].body) : i \in 1..Len(prog)}
-Role(node) ==
-  LET L == Leaves(node.body) IN
-  IF "AutoRebase2QuditGatePass" \in L /\ node.filter = "less-than-respecting-multi" THEN "mq"
-  ELSE IF ("GeneralSQDecomposition" \in L \/ "ZXZXZDecomposition" \in L) /\ node.filter = "always" THEN "sq"
-  ELSE IF L = {"EmbedAllPermutationsPass"} THEN "pam"
-  ELSE IF L = {"ScanningGateRemovalPass"} /\ node.filter = "less-than-respecting-multi" THEN "scan"
-  ELSE IF L # {} /\ L \subseteq {"QSearchSynthesisPass", "LEAPSynthesisPass"} /\ node.filter = "less-than-respecting-multi" THEN "resynth"
-  ELSE "unknown"
-
-Imp(a, b) == (~a) \/ b
-Monotone(a, b) == Imp(a.mq, b.mq) /\ Imp(a.sq, b.sq) /\ Imp(a.coupled, b.coupled) /\ Imp(~a.wide, ~b.wide)
-\* records that agree with a outside the four gate flags
-GateFlagVariants(a) == {[a EXCEPT !.mq = m, !.sq = s, !.coupled = c, !.wide = x] : m, s, c, x \in BOOLEAN}
-NoEffect == {"SetRandomSeedPass", "LogPass", "LogErrorPass", "ExtendBlockSizePass", "NOOPPass", "SetModelPass", "SetTargetPass",
-             "EmbedAllPermutationsPass", "SubtopologySelectionPass"}
-Synthesis == {"QSearchSynthesisPass", "LEAPSynthesisPass", "PermutationAwareSynthesisPass"}
-
-EffRaw(name, a, g) ==
-  CASE name \in NoEffect -> {a}
-    [] name = "UnfoldPass" -> {[a EXCEPT !.folded = FALSE]}
-    [] name = "ExtractMeasurements" -> {[a EXCEPT !.meas = IF a.meas = "in" THEN "stored" ELSE a.meas]}
-    [] name = "RestoreMeasurements" -> {[a EXCEPT !.meas = IF a.meas = "stored" THEN "in" ELSE a.meas]}
-    [] name \in {"QuickPartitioner", "GroupSingleQuditGatePass"} ->
-          {[a EXCEPT !.folded = f] : f \in {TRUE, a.folded}}
-    [] name = "ExtractModelConnectivityPass" -> {[a EXCEPT !.a2a = TRUE]}
-    [] name = "RestoreModelConnectivityPass" -> {[a EXCEPT !.a2a = FALSE]}
-    \* placement and layout choose where the circuit sits: only "coupled" can change
-    [] name \in {"GreedyPlacementPass", "GeneralizedSabreLayoutPass", "PAMLayoutPass"} -> {[a EXCEPT !.coupled = c] : c \in BOOLEAN}
-    \* routing makes every multi-qudit gate coupled; the swaps it inserts are native only if SWAP is
-    [] name = "GeneralizedSabreRoutingPass" ->
-          {[a EXCEPT !.coupled = TRUE, !.mq = m] : m \in ({a.mq} \cup (IF g.swapNative THEN {} ELSE {FALSE}))}
-    [] name = "PAMRoutingPass" ->
-          {[a EXCEPT !.coupled = c, !.mq = m, !.sq = s, !.wide = FALSE] : m, s \in BOOLEAN, c \in (IF a.a2a THEN BOOLEAN ELSE {TRUE})}
-    \* the circuit is moved onto the machine's qudits; locations go through the placement
-    [] name = "ApplyPlacement" -> {[a EXCEPT !.fits = TRUE, !.w = x] : x \in (IF a.fits THEN {a.w} ELSE a.w..3)}
-    \* whole-circuit synthesis: native entanglers on edges of the (current) connectivity, general single-qudit gates
-    [] name \in Synthesis ->
-          {[a EXCEPT !.mq = TRUE, !.wide = FALSE, !.folded = FALSE, !.coupled = c, !.sq = s] :
-              s \in BOOLEAN, c \in (IF a.a2a THEN BOOLEAN ELSE {TRUE})}
-    [] name = "ScanningGateRemovalPass" -> {b \in GateFlagVariants(a) : Monotone(a, b)}
-    [] name \in {"GeneralSQDecomposition", "ZXZXZDecomposition"} -> {[a EXCEPT !.sq = TRUE]}
-    [] name \in {"AutoRebase2QuditGatePass"} -> {[a EXCEPT !.mq = TRUE, !.sq = s] : s \in BOOLEAN}
-    [] name = "FillSingleQuditGatesPass" -> {[a EXCEPT !.sq = s] : s \in BOOLEAN}
-    [] OTHER -> GateFlagVariants(a)                                       \* a pass this model knows nothing about
-EffForEachRaw(node, a, g) ==
-  LET role == Role(node) IN
-  CASE role = "mq" ->      \* every block ends up with native entanglers; 3+-qudit gates are synthesised with all-to-all connectivity
-          {b \in GateFlagVariants(a) : b.mq /\ ~b.wide /\ (a.wide \/ Imp(a.coupled, b.coupled))}
-    [] role = "sq" -> {[a EXCEPT !.sq = TRUE]}
-    [] role = "scan" -> {b \in GateFlagVariants(a) : Monotone(a, b)}
-    [] role = "resynth" -> {b \in GateFlagVariants(a) : Imp(a.mq, b.mq) /\ Imp(a.coupled, b.coupled) /\ Imp(~a.wide, ~b.wide)}
-    [] role = "pam" -> {a}
-    [] OTHER -> GateFlagVariants(a)
-Eff(name, a, g) == {b \in EffRaw(name, a, g) : Consistent(b)}
-EffForEach(node, a, g) == {b \in EffForEachRaw(node, a, g) : Consistent(b)}
-
-\* ------------------------------------------------------------------ the property
-ExecClause(r, g) ==
-  IF ~r.fits THEN "width"
-  ELSE IF r.folded \/ ~r.mq \/ (g.hasSQ /\ ~g.allConst /\ ~r.sq) THEN "gate-not-native"     \* the workflow itself warns for gate sets
-  ELSE IF ~r.coupled \/ r.a2a THEN "uncoupled-location"                                      \* without parameterised single-qudit gates
-  ELSE IF r.meas = "stored" THEN "measurements-not-restored"
-  ELSE "ok"
-Executable(r, g) == ExecClause(r, g) = "ok"
 
 \* ------------------------------------------------------------------ state machine
 VARIABLES kind, level, gs, init, todo, rec      \* init = [w, fits] of the input (history, for the counterexample lines)
